@@ -196,6 +196,16 @@ def obligations(tier, seed):
                     obs.append({"name": "order/%s/edges=%s/perm=%s" % (layout, ",".join("%d%s%d" % (i, profiles.KN[k], j) for (i, j), k in zip(es, ks)), "".join(map(str, pm))),
                                 "harness": "order", "cube": {"spec": spec, "perm": list(pm)}, "params": [["w%d" % i, 0, wmax] for i in range(T)],
                                 "timeout": 600 if thorough else 120, "engine": "zsym"})
+    # every task priority rule under contention (one or two shared workers): the repeated call must not see what the first one left
+    # behind (rules read logs and PERT values of the task objects), and the set order must not matter
+    for rule in range(1, 9):
+        for es, ks in (([(0, 1), (0, 2)], (0, 0)), ([(0, 1), (0, 2)], (1, 0)), ([(0, 2), (1, 2)], (0, 0))):
+            for layout in (("shared1",) if not thorough else ("shared1", "shared2")):
+                spec = {"tasks": [{"w": "$w%d" % i} for i in range(T)], "edges": [[i, j, k] for (i, j), k in zip(es, ks)],
+                        "teams": profiles.layout_workers(layout, T), "run": {"max_time": 12 if not thorough else 16, "rule": rule}}
+                obs.append({"name": "order/rule=%d/%s/edges=%s/perm=210" % (rule, layout, ",".join("%d%s%d" % (i, profiles.KN[k], j) for (i, j), k in zip(es, ks))),
+                            "harness": "order", "cube": {"spec": spec, "perm": [2, 1, 0]}, "params": [["w%d" % i, 0, wmax] for i in range(T)],
+                            "timeout": 600 if thorough else 120, "engine": "zsym"})
     # product members (components whose tasks wait for predecessors): repeated simulate and permuted component/task order
     for kind in ("F1", "F2", "N1"):
         for ob in profiles.p_product(kind, thorough, H=10):
@@ -207,6 +217,15 @@ def obligations(tier, seed):
                 pr = [[n, max(lo, narrow[n][0]), min(hi, narrow[n][1])] if n in narrow else [n, lo, hi] for n, lo, hi in ob["params"]]
                 obs.append({"name": "order/" + ob["name"] + "/perm=" + "".join(map(str, pm)), "harness": "order", "cube": {"spec": ob["cube"]["spec"], "perm": pm},
                             "params": pr, "timeout": 600 if thorough else 120, "engine": "zsym"})
+    # an automatic task bound to a component next to an ordinary task of the same component (both may become READY in the same step)
+    for ob in profiles.p_product("F2", thorough, H=10, auto_second=True):
+        if "wprule=0" not in ob["name"] and not thorough:
+            continue
+        nT = len(ob["cube"]["spec"]["tasks"])
+        narrow = {"cap0": (1, 2), "cap1": (1, 2), "fs0": (1, 2), "fs1": (1, 1), "z1": (1, 1)}
+        pr = [[n, max(lo, narrow[n][0]), min(hi, narrow[n][1])] if n in narrow else [n, lo, hi] for n, lo, hi in ob["params"]]
+        obs.append({"name": "order/" + ob["name"] + "/perm=" + "".join(map(str, reversed(range(nT)))), "harness": "order",
+                    "cube": {"spec": ob["cube"]["spec"], "perm": list(reversed(range(nT)))}, "params": pr, "timeout": 600 if thorough else 120, "engine": "zsym"})
     for kind in ("F1", "F2", "N2"):
         for ob in profiles.p_product(kind, thorough, H=10):
             if "wprule=0" not in ob["name"] or ("/fs" in ob["name"] and not thorough):
